@@ -25,13 +25,13 @@ m = {
     'setup_cmd': './setup.sh',
     'hooks': {
         'guard': 'cfg(kani)',
-        'enable': 'cargo kani -p sfs-core (sets cfg(kani)); the hook is `#[cfg(kani)] #[path = "/verif/kani/incrate/mod.rs"] mod verif_kani;` at the end of core/src/lib.rs plus a check-cfg lint entry in core/Cargo.toml. Verus needs no hook: it reads the source text.',
+        'enable': 'cargo kani -p sfs-core / -p sfs-cli (sets cfg(kani)); the hooks are `#[cfg(kani)] #[path = "/verif/kani/incrate/<m>.rs"] mod verif_kani;` declarations at the end of core/src/lib.rs and of seven core modules with private items, one `#[path = "/verif/kani/incli/mod.rs"]` declaration at the end of cli/src/main.rs, plus a check-cfg lint entry in core/Cargo.toml and cli/Cargo.toml. Verus needs no hook: it reads the source text.',
         'baseline_off_cmd': 'cd /repo && cargo test --workspace --no-fail-fast --offline',
         'source_commits': HOOK_COMMITS,
         'add_only': True,
     },
     'engines': [{'name': 'contracts', 'path': '/verif/check', 'serves_properties': sorted(REGISTRY),
-                 'kind_free_text': 'contract-based deductive verification: Verus on functions extracted mechanically from /repo on every run; Kani (CBMC) contracts and harnesses compiled inside sfs-core'}],
+                 'kind_free_text': 'contract-based deductive verification: Verus on functions extracted mechanically from /repo on every run; Kani (CBMC) contracts and harnesses compiled inside sfs-core and the sfs binary crate'}],
     'checks': checks,
     'not_applicable': NOT_APPLICABLE,
     'notes': 'exit 2 = INCONCLUSIVE (lost anchor, unsupported construct, timeout, vacuity guard); never a VIOLATION. See DESIGN.md.',
